@@ -8,6 +8,7 @@
 //! a stack overflow, an abort or a hang is observed and attributed to its case instead of killing the run.
 mod buffers;
 mod codec;
+mod comments;
 mod compile;
 mod compile_ext;
 mod dynval;
@@ -75,6 +76,9 @@ fn run_case(engine: &str, f: &[&str]) -> CaseResult {
         ("emit", [op @ ("emit" | "emitc"), fam, format, files, diags, exp]) => emit::run_emit(op, fam, format, files, diags, exp),
         ("preproc", ["pp", _fam, text, syms, exp @ ..]) if !exp.is_empty() => preproc::run_pp(text, syms, &exp.join(" ")),
         ("preproc", ["multi", fam, files, syms, exp @ ..]) if !exp.is_empty() => preproc::run_multi(fam, files, syms, &exp.join(" ")),
+        ("comments", ["lex", _fam, lines, exp]) => comments::run_lex(lines, exp),
+        ("comments", ["doc", _fam, lines, exp]) => comments::run_doc(lines, exp, false),
+        ("comments", ["docm", _fam, lines, exp]) => comments::run_doc(lines, exp, true),
         ("files", ["tree", _fam, tree, argv, exp]) => files::run_tree(tree, argv, exp),
         ("compile", ["perm", _fam, opts, files, orders, exp]) => perm::run_perm(opts, files, orders, exp),
         ("compile", ["compile", _fam, proj, opts, files, exp]) => compile::run_compile(proj, opts, files, exp),
